@@ -744,14 +744,19 @@ where
         // Store masks from all results
         let mut masks = Vec::<Option<ExtendedMask>>::with_capacity(proofs.len());
 
-        // Get chunks of both the statements and proofs
-        let mut chunks = statements
-            .chunks(MAX_RANGE_PROOF_BATCH_SIZE)
-            .zip(proofs.chunks(MAX_RANGE_PROOF_BATCH_SIZE));
+        // Each chunk only checks its own members against each other, so check consistency across the entire batch first
+        RangeProof::verify_statements_and_generators_consistency(statements, proofs)?;
 
-        // If the batch fails, propagate the error; otherwise, store the masks and keep going
-        if let Some((batch_statements, batch_proofs)) = chunks.next() {
-            let mut result = RangeProof::verify(transcripts, batch_statements, batch_proofs, action)?;
+        // Get chunks of the statements, proofs and transcripts
+        let chunks = izip!(
+            statements.chunks(MAX_RANGE_PROOF_BATCH_SIZE),
+            proofs.chunks(MAX_RANGE_PROOF_BATCH_SIZE),
+            transcripts.chunks_mut(MAX_RANGE_PROOF_BATCH_SIZE)
+        );
+
+        // If any chunk fails, propagate the error; otherwise, store the masks and keep going
+        for (batch_statements, batch_proofs, batch_transcripts) in chunks {
+            let mut result = RangeProof::verify(batch_transcripts, batch_statements, batch_proofs, action)?;
 
             masks.append(&mut result);
         }
